@@ -91,6 +91,30 @@ class Run:
         self._harness[key] = exe
         return exe
 
+    def so_harness(self, header_dir=None):
+        """the tree's library linked as libcrypt.so.1 with its generated version script + a harness linked against it"""
+        if "so" in self._harness: return self._harness["so"]
+        self.c_prepare()
+        d = os.path.join(self.scratch, "v_so"); os.makedirs(d, exist_ok=True)
+        for f in ["config.h", "crypt-hashes.h", "crypt.h", "crypt-symbol-vers.h", "xcrypt.h", "libcrypt.map"]:
+            shutil.copy(os.path.join(self.scratch, f), d)
+        objs = cbuild.compile_lib(d, pic=True)
+        so = cbuild.link_so(d, objs)
+        exe = os.path.join(d, "harness_so")
+        inc = header_dir or d
+        r = subprocess.run(["gcc", "-O1", "-g", "-DXC_SO", "-I" + inc, "-I" + os.path.join(ROOT, "harness"),
+                            os.path.join(ROOT, "harness", "harness.c"), "-o", exe, so, "-ldl", "-lpthread",
+                            "-Wl,-rpath," + d], text=True, capture_output=True)
+        if r.returncode != 0: raise RuntimeError("so harness build failed: " + r.stderr[-3000:])
+        self._harness["so"] = (exe, so)
+        return exe, so
+
+    def run_so(self, ops, timeout=3000):
+        exe, so = self.so_harness()
+        r = subprocess.run([exe], input="\n".join(ops) + "\n", text=True, capture_output=True, env=dict(os.environ, XC_SO_PATH=so), timeout=timeout)
+        self.last_impl_stderr = r.stderr; self.last_impl_rc = r.returncode
+        return r.stdout.splitlines()
+
     # ---------- Lean side ----------
     def lean_prepare(self):
         if self.lean_dir: return self.lean_dir
